@@ -618,7 +618,7 @@ fn main() {
     }
     let case_modes = |c: &Case| -> Vec<Mode> {
         let mut m = c.modes();
-        if c.templates().iter().any(|(n, _)| n.ends_with("_c")) {
+        if c.templates().iter().any(|(n, _)| n.contains("_c")) {
             m.push(Mode::Component(format!("hi{}", c.id)));
             m.push(Mode::Component(format!("hb{}", c.id)));
         }
